@@ -21,7 +21,7 @@ REQUIRE = {'streams_with_long_row': 50, 'streams_without_long_row': 50, 'long_ro
            'mode_pop': 20, 'two_long_rows_same_start': 5, 'streams_with_empty_row': 30,
            'rows_of_32_or_more_cells_with_leading_blanks': 20,
            'rows_over_32_cells_only_through_trailing_blanks': 20,
-           'streams_with_erased_cells': 100, 'reads_by_a_reader_object_used_before': 100,
+           'streams_with_erased_cells': 100, 'streams_with_a_row_of_blanks_only': 100, 'reads_by_a_reader_object_used_before': 100,
            'reads_by_a_reader_object_whose_previous_read_was_refused': 50, 'reads_with_option_lang': 50, 'reads_with_option_simulate_roll_up': 50}
 
 LENGTHS = [0, 0, 1, 5, 12, 20, 28, 31, 32, 32, 32, 33, 33, 34, 40]
@@ -101,6 +101,8 @@ def check(case, ctx):
         ctx.count('rows_over_32_cells_only_through_trailing_blanks')
     if any(it[0] in ('bs', 'ext') for r in _all_rows(st) for it in r['items']):
         ctx.count('streams_with_erased_cells')
+    if any(r and not r.strip(' ') for r in rows):
+        ctx.count('streams_with_a_row_of_blanks_only')
     if any(len(r) == 0 for r in rows):
         ctx.count('streams_with_empty_row')
     if any(r.startswith(' ') and len(r) >= 32 for r in rows):
